@@ -1219,7 +1219,13 @@ fn sgr_color<'a>(mut cmds: impl Iterator<Item = &'a [u8]>) -> Option<RGBA> {
                 cmds.next().and_then(number_decode),
             ] {
                 [Some(r), Some(g), Some(b), None] | [_, Some(r), Some(g), Some(b)] => {
-                    Some(RGBA::new(r as u8, g as u8, b as u8, 255))
+                    // out of range components are not a valid color
+                    Some(RGBA::new(
+                        u8::try_from(r).ok()?,
+                        u8::try_from(g).ok()?,
+                        u8::try_from(b).ok()?,
+                        255,
+                    ))
                 }
                 _ => None,
             }
